@@ -153,4 +153,14 @@ def Map.replaceFusedOut (m : Map) (k kid : Nat) (o : Orc) : Except Fault (Map ×
   | .ok (m', some e) => .ok (m', { cost := { hashes := 1, dropped := kid :: e.ids } }, true)
   | .ok (m', none) => .ok (m', { cost := { hashes := 1, dropped := [kid] } }, false)
 
+/-- `entry(k).or_insert_with(f)` / `or_insert_with_key(f)` / `raw_entry_mut().from_key(&k).or_insert_with(f)`
+    (`inserting = true`) and `entry(k).and_modify(f)` / the raw-entry `and_modify` (`inserting = false`) with a
+    closure that panics as soon as it is called.  The closure of an inserting call runs only on a vacant entry —
+    before anything is inserted —, the modifying one only on an occupied entry, on the value in place.  Either way
+    the map is not touched; the unwinding drops the handle, and with it the key object `entry(k)` was given
+    (the raw API borrows its key: nothing to drop).  Returns whether the closure was reached. -/
+def Map.entryFused (m : Map) (k kid : Nat) (raw inserting : Bool) : Map × Out × Bool :=
+  let present := (m.find k).isSome
+  (m, { cost := { hashes := 1, dropped := if raw then [] else [kid] } }, if inserting then !present else present)
+
 end Griddle
